@@ -15,6 +15,7 @@ NAME = ("name", {"name": "other"})
 SEED = ("@seed", {"@seed": 1})
 INT = ("@dtype", {"@dtype": "int32"})
 DASK = ("@backend", {"@backend": "dask"})
+SHAPE = ("@shape", {"@shape": [5, 8]})        # the raster's SIZE / shape varies alone (same dtype, backend, parameters)
 
 TABLE = {
     # ---- proximity family (every call re-JITs a closure: few raster variations)
@@ -51,7 +52,9 @@ TABLE = {
     "binary": ("classify", {}, [("values", {"values": [1, 2, 3]}), NAME, SEED]),
     "reclassify": ("classify", {}, [("bins", {"bins": [10, 20, 30]}), ("new_values", {"new": [7, 8, 9]}), NAME, SEED]),
     "quantile": ("classify", {}, [("k", {"k": 3}), NAME, SEED]),
-    "natural_breaks": ("classify", {}, [("k", {"k": 3}), ("num_sample", {"num_sample": 20}), NAME, SEED]),
+    # num_sample below the raster size (42 / 40 cells): the sub-sampling path, for two raster sizes
+    "natural_breaks": ("classify", {"num_sample": 20}, [("k", {"k": 3}), ("num_sample", {"num_sample": 30}), NAME, SEED,
+                                                        ("=num_sample", {"num_sample": 20})]),
     "equal_interval": ("classify", {}, [("k", {"k": 3}), NAME, SEED]),
     "slope": ("stencil", {}, [NAME, SEED, INT]),
     "aspect": ("stencil", {}, [NAME, SEED]),
@@ -79,9 +82,9 @@ TABLE = {
     "local_combine": ("local", {}, [("data_vars", {"data_vars": ["v0", "v1"]}), SEED]),
     "local_lowest_position": ("local", {}, [("data_vars", {"data_vars": ["v0", "v1"]}), SEED]),
     "local_highest_position": ("local", {}, [("data_vars", {"data_vars": ["v0", "v1"]}), SEED]),
-    "local_lesser_frequency": ("local", {}, [("ref_var", {"ref_var": "v1"}), ("data_vars", {"data_vars": ["v1"]}), SEED]),
-    "local_equal_frequency": ("local", {}, [("ref_var", {"ref_var": "v1"}), ("data_vars", {"data_vars": ["v1"]}), SEED]),
-    "local_greater_frequency": ("local", {}, [("ref_var", {"ref_var": "v1"}), ("data_vars", {"data_vars": ["v1"]}), SEED]),
+    "local_lesser_frequency": ("local", {}, [("ref_var", {"ref_var": "v1"}), ("data_vars", {"data_vars": ["v1", "v2"]}), SEED]),
+    "local_equal_frequency": ("local", {}, [("ref_var", {"ref_var": "v1"}), ("data_vars", {"data_vars": ["v1", "v2"]}), SEED]),
+    "local_greater_frequency": ("local", {}, [("ref_var", {"ref_var": "v1"}), ("data_vars", {"data_vars": ["v1", "v2"]}), SEED]),
     "local_popularity": ("local", {}, [("ref_var", {"ref_var": "v1"}), ("data_vars", {"data_vars": ["v1", "v2"]}), SEED]),
     "local_rank": ("local", {}, [("ref_var", {"ref_var": "v1"}), ("data_vars", {"data_vars": ["v1", "v2"]}), SEED]),
     "calc_res": ("local", {}, [SEED]), "get_dataarray_resolution": ("local", {}, [SEED]), "get_xy_range": ("local", {}, [SEED]),
@@ -97,6 +100,9 @@ TABLE = {
     # ---- thorough only (22 s first-call JIT)
     "viewshed": ("viewshed", {}, [("x", {"vx": 0}), ("y", {"vy": 0}), ("observer_elev", {"oe": 1}), ("target_elev", {"te": 3}), SEED]),
 }
+for _f, (_g, _b, _v) in TABLE.items():
+    if SEED in _v and _f not in ("allocation", "direction", "polygonize_mask", "viewshed"):
+        _v.append(SHAPE)
 for _f in ("proximity", "convolution_2d", "focal_mean", "zonal_stats", "zonal_crosstab", "quantile", "slope", "ndvi",
            "true_color", "perlin", "generate_terrain"):
     TABLE[_f][2].append(DASK)             # the array backend of the raster argument varies alone as well
@@ -104,12 +110,17 @@ INT_DTYPE_FUNCS = {"local_rank"}          # float rasters are outside this funct
 LOCAL_INT = {f for f in TABLE if f.startswith("local_")}
 
 # float-raster reductions whose result must not depend on the thread count (NUMBA_NUM_THREADS / numba.set_num_threads)
-THREAD_CALLS = [("zonal_stats", {}, "float64"), ("zonal_stats", {}, "float32"),
-                ("focal_stats", {"stats": ["mean", "sum", "std", "var"]}, "float32"), ("hotspots", {}, "float32"),
-                ("local_cell_stats", {"func": "mean"}, "float64"),
-                ("true_color", {}, "float32"), ("focal_apply", {}, "float32"),
-                # Dask graphs on the threaded scheduler with as many workers
-                ("focal_apply", {}, "float32", "dask"), ("zonal_stats", {}, "float64", "dask"), ("hotspots", {}, "float32", "dask")]
+K5 = {"kernel": "circle5"}
+# (function, parameters, dtype, backend, raster size).  NumPy calls on 160 x 176 rasters with 5 x 5 kernels (kernels may switch
+# to a parallel build only above a size threshold); Dask graphs on 40 x 48 with the threaded scheduler.
+THREAD_CALLS = [("zonal_stats", {}, "float64", "numpy", [160, 176]), ("zonal_stats", {}, "float32", "numpy", [160, 176]),
+                ("focal_stats", dict(K5, stats=["mean", "sum", "std", "var"]), "float32", "numpy", [160, 176]),
+                ("focal_apply", dict(K5), "float32", "numpy", [160, 176]), ("hotspots", dict(K5), "float32", "numpy", [160, 176]),
+                ("convolution_2d", dict(K5), "float32", "numpy", [160, 176]), ("focal_mean", {}, "float64", "numpy", [160, 176]),
+                ("local_cell_stats", {"func": "mean"}, "float64", "numpy", [160, 176]),
+                ("true_color", {}, "float32", "numpy", [160, 176]),
+                ("focal_apply", {}, "float32", "dask", [40, 48]), ("zonal_stats", {}, "float64", "dask", [40, 48]),
+                ("hotspots", {}, "float32", "dask", [40, 48])]
 
 
 def entries(tier):
@@ -122,10 +133,12 @@ def entries(tier):
 
         def mk(pname, delta):
             params = dict(base)
-            dt, seed, backend = dtype, 0, "numpy"
+            dt, seed, backend, hw = dtype, 0, "numpy", None
             for k, v in delta.items():
                 if k == "@seed":
                     seed = v
+                elif k == "@shape":
+                    hw = list(v)
                 elif k == "@dtype":
                     dt = v
                 elif k == "@backend":
@@ -136,7 +149,7 @@ def entries(tier):
             c = "%s|%s|%s" % (f, pname, sig)
             eff = "%s|base|%s" % (f, sig) if pname.startswith("=") else c
             return {"c": c, "f": f, "p": pname, "sig": sig, "eff": eff, "pos": len(vary_done), "params": params, "dtype": dt, "backend": backend,
-                    "layout": "C", "seed": seed, "finite": True, "hw": None, "group": group, "cost": 1.0}
+                    "layout": "C", "seed": seed, "finite": True, "hw": hw, "group": group, "cost": 1.0}
         vary_done = []
         out.append(mk("base", {}))
         for pname, delta in vary:
@@ -212,11 +225,32 @@ def schedules(ents, nproc=11):
 
 def thread_entries():
     out = []
-    for tc in THREAD_CALLS:
-        f, params, dt = tc[:3]
-        backend = tc[3] if len(tc) > 3 else "numpy"
-        sig = {"float64": "f8", "float32": "f4"}[dt] + ("d" if backend == "dask" else "") + "Big"
-        c = "%s|%s|%s" % (f, "thr" + "_".join(sorted(params)) if params else "thr", sig)
-        out.append({"c": c, "f": f, "p": c.split("|")[1], "sig": sig, "eff": c, "params": dict(params), "dtype": dt, "backend": backend,
-                    "layout": "C", "seed": 0, "finite": True, "hw": [40, 48], "group": "threads", "cost": 1.0})
+    for f, params, dt, backend, hw in THREAD_CALLS:
+        sig = {"float64": "f8", "float32": "f4"}[dt] + ("d" if backend == "dask" else "") + "x%d" % hw[0]
+        c = "%s|%s|%s" % (f, "thr", sig)
+        out.append({"c": c, "f": f, "p": "thr", "sig": sig, "eff": c, "params": dict(params), "dtype": dt, "backend": backend,
+                    "layout": "C", "seed": 0, "finite": True, "hw": list(hw), "group": "threads", "cost": 1.0})
+    return out
+
+
+def joint_entries():
+    """Dask results of ONE function for rasters of equal shape / chunks but different coordinates (and one different
+    parameter), first computed separately, then TOGETHER (dask.compute(r1, r2)): -> list of calls of one history"""
+    out = []
+    for f, params, var in (("proximity", {}, {"max_distance": 4.5}), ("direction", {}, None), ("allocation", {}, None),
+                           ("slope", {}, None), ("focal_mean", {}, {"passes": 2}), ("convolution_2d", {}, {"kernel": "circle5"}),
+                           ("hotspots", {}, None), ("hillshade", {}, {"azimuth": 100})):
+        a = {"c": "%s|joint_a|f8d" % f, "f": f, "p": "joint_a", "sig": "f8d", "params": dict(params), "coordscale": 1}
+        b = {"c": "%s|joint_b|f8d" % f, "f": f, "p": "joint_b", "sig": "f8d", "params": dict(params), "coordscale": 3}
+        calls = [a, b]
+        if var:
+            calls.append({"c": "%s|joint_c|f8d" % f, "f": f, "p": "joint_c", "sig": "f8d", "params": dict(params, **var),
+                          "coordscale": 1})
+        for e in calls:
+            e.update({"eff": e["c"], "dtype": "float64", "backend": "dask", "layout": "C", "seed": 0, "finite": True,
+                      "hw": None, "group": "joint", "cost": 1.0, "keep_lazy": True})
+        out += calls
+        # the joint step: the last call again, computed together with the others
+        last = dict(calls[-1], joint=[e["c"] for e in calls[:-1]])
+        out.append(last)
     return out
